@@ -10,16 +10,22 @@ from symx.core import Stats, HarnessError, explore, split_roots
 NPROC = int(os.environ.get('VERIF_NPROC', '16'))
 
 
-def install_common_stubs():
+def named_render(template, **kw):
+    """Deterministic message text: template name + message code."""
+    return '[%s code=%s]' % (template, kw.get('code', ''))
+
+
+def install_common_stubs(render=None):
     """The stubs every harness uses (listed in evidence as `stubs`)."""
     import bert_e.exceptions as ex
     import bert_e.lib.template_loader as tl
     import bert_e.lib.retry as retry
-    ex.render = lambda *a, **k: ''
-    tl.render = lambda *a, **k: ''
+    render = render or (lambda *a, **k: '')
+    ex.render = render
+    tl.render = render
     try:
         import bert_e.workflow.gitwaterflow.branches as B
-        B.render = lambda *a, **k: ''
+        B.render = render
     except Exception:
         pass
     retry.sleep = lambda *a, **k: None
